@@ -278,14 +278,24 @@ def replay(cases, *, deadline="10s", workers=None, name="replay", _retry=False):
             results[x["id"]] = x
     shutil.rmtree(d, ignore_errors=True)
     # a deadline miss counts only if it is reproducible: on a loaded machine a harmless case can be slow.
-    # The cases that timed out are run again, two at a time, with six times the deadline.
+    # The cases that timed out are run again, a few at a time, with six times the deadline.  As soon as one batch
+    # confirms a hang the verdict of the run is settled: the late cases not yet retried are left undecided
+    # (not counted as violations) instead of being waited for, six deadlines each.
     late = [c for c in cases if results.get(c["id"], {}).get("timeout")]
     if late and not _retry:
         m = re.match(r"(\d+)s", deadline)
         longer = "%ds" % (int(m.group(1)) * 6 if m else 120)
-        again = replay(late, deadline=longer, workers=2, name=name + "-retry", _retry=True)
-        for c in late:
-            results[c["id"]] = again[c["id"]]
+        confirmed = False
+        for i in range(0, len(late), 8):
+            batch = late[i:i + 8]
+            if confirmed:
+                for c in batch:
+                    results[c["id"]] = {"id": c["id"], "ok": True, "undecided": "deadline exceeded once; not retried because another case of this run hangs reproducibly"}
+                continue
+            again = replay(batch, deadline=longer, workers=4, name=name + "-retry", _retry=True)
+            for c in batch:
+                results[c["id"]] = again[c["id"]]
+                confirmed = confirmed or bool(again[c["id"]].get("timeout"))
     if len(results) != len({c["id"] for c in cases}):
         raise HarnessError("replayer returned %d results for %d cases" % (len(results), len(cases)))
     return results
